@@ -15,7 +15,9 @@ Definition trace := (header * list item)%type.
 
 Definition h_cfg (h : header) : hostcfg := {| min_temp_ttl := h_min h; max_ttl := h_max h |}.
 Definition h_init (h : header) : state := init (h_start h) (h_holder h).
-Definition wf_header (h : header) : bool := 1 <=? h_min h.
+(* C07 prescribes min_temp_entry_ttl = 1: with a larger minimum the host keeps a short offer's entry alive
+   beyond its live_until (the documented caveat of transfer_role), outside the property's domain *)
+Definition wf_header (h : header) : bool := h_min h =? 1.
 
 Definition eqb_oaddr (a b : option addr) : bool :=
   match a, b with Some x, Some y => N.eqb x y | None, None => true | _, _ => false end.
@@ -41,12 +43,15 @@ Fixpoint diff_from (k : kind) (c : hostcfg) (s : state) (l : list item) (i : N) 
 (* ---------------- monitor ---------------- *)
 (* The latest offer that was neither cancelled nor accepted, as reconstructed from the
    observed calls: addressee, the ledger until which the offer itself says it is live
-   (o_lu), and o_cover = the latest live_until among the chain of offers that replaced
-   one another in place while still stored (only used to CLASSIFY a failure as the known
-   finding F2, never to excuse anything else). *)
+   (o_lu = its live_until), and o_cover = the latest live_until among the offers that
+   replaced one another since the last cancel / accept / lapse (>= o_lu).  o_cover is used
+   to CLASSIFY an acceptance after o_lu as the known finding F2 (o_lu < n <= o_cover: the
+   accepted offer overwrote a longer-lived one that is still within its live_until), and to
+   demand that renouncing stays refused while such an entry can still be accepted. *)
 Record offer_t := { o_new : addr; o_lu : Z; o_cover : Z }.
 Record mon := { q_now : Z; q_holder : option addr; q_off : option offer_t }.
-Inductive mres := MOk (q : mon) | MBad (cls : N).
+(* MKnown: the step is the known finding (class 1); monitoring CONTINUES from q *)
+Inductive mres := MOk (q : mon) | MKnown (q : mon) | MBad.
 
 Definition holder_auth (h : option addr) (auths : list addr) : bool :=
   match h with Some a => has_auth auths a | None => false end.
@@ -61,84 +66,89 @@ Definition mon_step (hd : header) (q : mon) (it : item) : mres :=
   let n := q_now q in
   match cl with
   | Advance k =>
-      (* moving the ledger changes nobody's role *)
+      (* moving the ledger changes nobody's role, however far *)
       if is_ok o && eqb_oaddr h' h
-      then MOk {| q_now := n + Z.of_N k; q_holder := h; q_off := q_off q |} else MBad 0
+      then MOk {| q_now := n + Z.of_N k; q_holder := h; q_off := q_off q |} else MBad
   | Guarded au =>
       (* the restricted entry point runs exactly with the current holder's authorisation:
          until acceptance the current holder keeps full control, nobody else has any *)
-      if eqb_oaddr h' h && Bool.eqb (is_ok o) (holder_auth h au) then MOk q else MBad 0
+      if eqb_oaddr h' h && Bool.eqb (is_ok o) (holder_auth h au) then MOk q else MBad
   | Offer new lu au =>
-      if negb (eqb_oaddr h' h) then MBad 0            (* offering / cancelling moves nothing *)
+      if negb (eqb_oaddr h' h) then MBad              (* offering / cancelling moves nothing *)
       else if lu =? 0 then
         match o with
         | Ok _ =>   (* only the holder cancels, and only the offer that is pending *)
             if holder_auth h au && match q_off q with Some f => N.eqb (o_new f) new | None => false end
-            then MOk (set_off q None) else MBad 0
+            then MOk (set_off q None) else MBad
         | Fail =>   (* the holder can always cancel a live offer *)
             if holder_auth h au &&
                match q_off q with Some f => N.eqb (o_new f) new && (n <=? o_lu f) | None => false end
-            then MBad 0 else MOk q
+            then MBad else MOk q
         end
       else
         let valid := holder_auth h au && (n <=? lu) && (lu <=? n + h_max hd - 1) in
         match o with
         | Ok _ =>   (* only the holder offers; the new offer replaces the previous one *)
             if valid then
-              (* a fresh entry lives until max lu (n + min_ttl - 1) (= lu for min_ttl = 1, as prescribed);
-                 an offer written over a still stored one says lu, the entry keeps the later of the two *)
-              let fresh := Z.max lu (n + h_min hd - 1) in
               let f' := match q_off q with
                         | Some f => if n <=? o_cover f
                                     then {| o_new := new; o_lu := lu; o_cover := Z.max lu (o_cover f) |}
-                                    else {| o_new := new; o_lu := fresh; o_cover := fresh |}
-                        | None => {| o_new := new; o_lu := fresh; o_cover := fresh |}
+                                    else {| o_new := new; o_lu := lu; o_cover := lu |}
+                        | None => {| o_new := new; o_lu := lu; o_cover := lu |}
                         end in
               MOk (set_off q (Some f'))
-            else MBad 0
-        | Fail => if valid then MBad 0 else MOk q
+            else MBad
+        | Fail => if valid then MBad else MOk q
         end
   | Accept au =>
       match o with
       | Ok _ =>
           match q_off q with
-          | None => MBad 0                 (* nothing on offer: cancelled, already accepted, never made *)
+          | None => MBad                   (* nothing on offer: cancelled, already accepted, never made *)
           | Some f =>
               if has_auth au (o_new f)     (* the designated pending account itself *)
                  && eqb_oaddr h' (Some (o_new f)) && is_some h
-              then if n <=? o_lu f then MOk {| q_now := n; q_holder := h'; q_off := None |}
-                   else if n <=? o_cover f then MBad 1     (* known finding F2 *)
-                   else MBad 0
-              else MBad 0
+              then let q' := {| q_now := n; q_holder := h'; q_off := None |} in
+                   if n <=? o_lu f then MOk q'
+                   else if n <=? o_cover f then MKnown q'  (* known finding F2 *)
+                   else MBad
+              else MBad
           end
       | Fail =>
-          if negb (eqb_oaddr h' h) then MBad 0
+          if negb (eqb_oaddr h' h) then MBad
           else match q_off q with
                | Some f =>          (* a live offer can be accepted by its addressee *)
-                   if has_auth au (o_new f) && (n <=? o_lu f) && is_some h then MBad 0 else MOk q
+                   if has_auth au (o_new f) && (n <=? o_lu f) && is_some h then MBad else MOk q
                | None => MOk q
                end
       end
   | Renounce au =>
       match o with
-      | Ok _ =>    (* only the holder, never while an offer is pending *)
+      | Ok _ =>    (* only the holder, never while an offer is pending - nor while an overwritten
+                      longer-lived entry keeps the offer acceptable (F2 window) *)
           if holder_auth h au && eqb_oaddr h' None
-             && negb match q_off q with Some f => n <=? o_lu f | None => false end
-          then MOk {| q_now := n; q_holder := None; q_off := q_off q |} else MBad 0
+             && negb match q_off q with Some f => n <=? o_cover f | None => false end
+          then MOk {| q_now := n; q_holder := None; q_off := q_off q |} else MBad
       | Fail =>
-          if negb (eqb_oaddr h' h) then MBad 0
+          if negb (eqb_oaddr h' h) then MBad
           else if holder_auth h au && match q_off q with Some f => o_cover f <? n | None => true end
-               then MBad 0 else MOk q
+               then MBad else MOk q
       end
   end.
 
-Fixpoint mon_from (hd : header) (q : mon) (l : list item) (i : N) : N * N :=
+(* MOk and MKnown both let the monitor go on *)
+Definition cont (r : mres) : option mon := match r with MOk q | MKnown q => Some q | MBad => None end.
+
+(* verdict: the first unclassified failure if there is one (the monitor stops there);
+   otherwise the first known-finding step (class 1), after which monitoring went on *)
+Fixpoint mon_from (hd : header) (q : mon) (l : list item) (i : N) (known : N) : N * N :=
   match l with
-  | [] => (0%N, 0%N)
+  | [] => if N.eqb known 0 then (0%N, 0%N) else (known, 1%N)
   | it :: r =>
       match mon_step hd q it with
-      | MOk q' => mon_from hd q' r (N.succ i)
-      | MBad cls => (N.succ i, cls)
+      | MOk q' => mon_from hd q' r (N.succ i) known
+      | MKnown q' => mon_from hd q' r (N.succ i) (if N.eqb known 0 then N.succ i else known)
+      | MBad => (N.succ i, 0%N)
       end
   end.
 
@@ -146,9 +156,11 @@ Definition mon_init (hd : header) : mon := {| q_now := h_start hd; q_holder := h
 
 Definition check (t : trace) : verdict :=
   let '(hd, l) := t in
-  let d := if wf_header hd then diff_from (h_kind hd) (h_cfg hd) (h_init hd) l 0%N else 1%N in
-  let '(m, cls) := mon_from hd (mon_init hd) l 0%N in
-  (d, m, cls).
+  if wf_header hd then
+    let d := diff_from (h_kind hd) (h_cfg hd) (h_init hd) l 0%N in
+    let '(m, cls) := mon_from hd (mon_init hd) l 0%N 0%N in
+    (d, m, cls)
+  else (1%N, 1%N, 0%N).       (* a malformed header is a failure of both *)
 Definition check_all (ts : list trace) : list verdict := map check ts.
 
 (* the trace the model itself produces for a list of calls *)
@@ -218,3 +230,46 @@ Definition ex_cfg : hostcfg := {| min_temp_ttl := 1; max_ttl := 5000 |}.
 Definition ex_calls : list call :=
   [Offer 1%N 200 [0%N]; Offer 1%N 0 [0%N]; Offer 2%N 150 [0%N]; Advance 50%N; Accept [2%N]; Guarded [2%N];
    Offer 3%N 160 [2%N]; Advance 11%N; Renounce [2%N]; Guarded [2%N]].
+
+(* ---- traces of the adversarial review ---- *)
+(* the monitor goes on after a known-finding step: a later unclassified failure wins *)
+Example C07_monitor_continues_after_known :
+  check (hd0, [(Offer 1%N 1000 [0%N], Ok 0, (Some 0%N, Some (1%N, 1000)));
+     (Offer 2%N 110 [0%N], Ok 0, (Some 0%N, Some (2%N, 1000)));
+     (Advance 400%N, Ok 0, (Some 0%N, Some (2%N, 1000)));
+     (Accept [2%N], Ok 0, (Some 2%N, None));
+     (Guarded [3%N], Ok 1, (Some 2%N, None));
+     (Accept [1%N], Ok 0, (Some 1%N, None));
+     (Advance 5%N, Ok 0, (Some 3%N, None))]) = (5%N, 5%N, 0%N) /\
+  check (hd0, [(Offer 1%N 1000 [0%N], Ok 0, (Some 0%N, Some (1%N, 1000)));
+     (Offer 2%N 110 [0%N], Ok 0, (Some 0%N, Some (2%N, 1000)));
+     (Advance 400%N, Ok 0, (Some 0%N, Some (2%N, 1000)));
+     (Accept [2%N], Ok 0, (Some 2%N, None));
+     (Offer 3%N 510 [2%N], Ok 0, (Some 2%N, Some (3%N, 510)));
+     (Advance 1000%N, Ok 0, (Some 2%N, None));
+     (Accept [3%N], Ok 0, (Some 3%N, None))]) = (7%N, 7%N, 0%N) /\
+  (* ... and a clean continuation keeps the class-1 verdict of the first known step *)
+  check (observe_model hd0 [Offer 1%N 1000 [0%N]; Offer 2%N 110 [0%N]; Advance 400%N; Accept [2%N];
+                            Guarded [2%N]; Offer 3%N 600 [2%N]; Accept [3%N]]) = (0%N, 4%N, 1%N).
+Proof. vm_compute. repeat split; reflexivity. Qed.
+(* min_temp_entry_ttl <> 1 is outside the property's prescribed configuration: the whole trace is refused *)
+Definition hd16 : header := {| h_kind := Own; h_min := 16; h_max := 5000; h_start := 100; h_holder := Some 0%N |}.
+Example C07_monitor_refuses_other_min_ttl :
+  check (hd16, [(Offer 1%N 101 [0%N], Ok 0, (Some 0%N, Some (1%N, 115)));
+                (Advance 10%N, Ok 0, (Some 0%N, Some (1%N, 115)));
+                (Accept [1%N], Ok 0, (Some 1%N, None))]) = (1%N, 1%N, 0%N).
+Proof. vm_compute. reflexivity. Qed.
+(* accepted after BOTH offers' live_until: not the known class *)
+Example C07_monitor_rejects_after_both_live_untils :
+  check (hd0, [(Offer 1%N 101 [0%N], Ok 0, (Some 0%N, Some (1%N, 115)));
+               (Offer 2%N 100 [0%N], Ok 0, (Some 0%N, Some (2%N, 115)));
+               (Advance 10%N, Ok 0, (Some 0%N, Some (2%N, 115)));
+               (Accept [2%N], Ok 0, (Some 2%N, None))]) = (1%N, 4%N, 0%N).
+Proof. vm_compute. reflexivity. Qed.
+(* renounce going through while an overwritten longer-lived entry keeps the offer acceptable *)
+Example C07_monitor_rejects_renounce_in_known_window :
+  snd (fst (check (hd0, [(Offer 1%N 1000 [0%N], Ok 0, (Some 0%N, Some (1%N, 1000)));
+       (Offer 2%N 110 [0%N], Ok 0, (Some 0%N, Some (2%N, 1000)));
+       (Advance 400%N, Ok 0, (Some 0%N, Some (2%N, 1000)));
+       (Renounce [0%N], Ok 0, (None, Some (2%N, 1000)))]))) = 4%N.
+Proof. vm_compute. reflexivity. Qed.
